@@ -6,6 +6,8 @@
 //   c04_corruptions        bit flips / truncations / short HTTP bodies: clone fails or yields exactly the source
 //   c15_crafted_archives   header-valid archives with mutated dictionary fields, tampered size fields and truncations:
 //                          open / inspect / chunk never panics or hangs
+//   c15_http_crafted_runs  header-valid archives declaring long runs of huge adjacent chunks, cloned over HTTP from a server
+//                          that only has the header: an error, never a panic, an abort (allocation of the declared run) or a hang
 // Prints `WITNESS <json>` and fails on the first disagreement.
 #![cfg(feature = "compress")]
 use std::io::Cursor;
@@ -514,6 +516,41 @@ fn c15_crafted_archives() {
         let b = valid[..len].to_vec();
         guarded(format!("valid archive truncated to {} of {} bytes", len, valid.len()), move || exercise(b));
         cases += 1;
+    }
+    println!("COMPANION-OK cases={}", cases);
+}
+
+/// C15 over HTTP: the declared sizes of a whole run of adjacent chunks are attacker-controlled; fetching such a run must
+/// not allocate (or otherwise depend on) more than what actually arrives.
+#[test]
+fn c15_http_crafted_runs() {
+    std::panic::set_hook(Box::new(|_| {}));
+    let mut cases = 0;
+    for n in [2usize, 300, 4096] {
+        for size in [u32::MAX, 1 << 20, 7] {
+            for cut in [false, true] {
+                let descs: Vec<dict::ChunkDescriptor> = (0..n).map(|i| dict::ChunkDescriptor {
+                    checksum: { let mut c = vec![0u8; 64]; c[0] = i as u8; c[1] = (i >> 8) as u8; c },
+                    archive_size: size, archive_offset: i as u64 * size as u64, source_size: size }).collect();
+                let d = dict::ChunkDictionary { application_version: "c".into(), source_checksum: vec![0; 64], source_total_size: n as u64 * size as u64,
+                    chunker_params: Some(default_params()), chunk_compression: Some(dict::ChunkCompression { compression: 0, compression_level: 0 }),
+                    rebuild_order: (0..n as u32).collect(), chunk_descriptors: descs, metadata: Default::default() };
+                let mut bytes = bitar::header::build(&d, None).unwrap();
+                let header_len = bytes.len();
+                bytes.extend([0x55u8; 40]);   // the server has 40 bytes of chunk data, the dictionary declares up to 16 TiB
+                let what = format!("{} adjacent descriptors of {} bytes each over HTTP, server has 40 data bytes{}", n, size, if cut { " and cuts bodies after 10" } else { "" });
+                println!("STAGE {}", what);
+                guarded(what, move || {
+                    let rt = rt();
+                    let r = rt.block_on(async {
+                        let (reader, _log) = http_reader_for(&bytes, if cut { Misbehave::CutAt(header_len as u64 + 10) } else { Misbehave::No }).await;
+                        clone_with(reader.retries(1).retry_delay(Duration::from_millis(1))).await
+                    });
+                    if r.is_ok() { panic!("clone of an archive whose chunk data does not exist reports success"); }
+                });
+                cases += 1;
+            }
+        }
     }
     println!("COMPANION-OK cases={}", cases);
 }
